@@ -35,7 +35,7 @@ package broker
 //@   loop 1 invariant result != nil && fresh(result) && -1 <= rangeidx(1) && rangeidx(1) < len(memberIDs)
 //@   loop 1 invariant forall m string :: has(result, m) ==> mapval(result, m) != nil && has(state.members, m) && (forall t string :: !has(mapval(result, m), t))
 //@   loop 1 invariant forall i int :: 0 <= i && i <= rangeidx(1) ==> has(result, memberIDs[i])
-//@   loop 1 invariant forall m string :: has(result, m) ==> allocated(mapval(result, m))
+//@   loop 1 invariant forall m string :: has(result, m) ==> allocated(mapval(result, m)) && mapval(result, m) != topics
 //@   loop 1 invariant forall m1 string, m2 string :: has(result, m1) && has(result, m2) && m1 != m2 ==> mapval(result, m1) != mapval(result, m2)
 //@   loop 2 invariant result != nil && fresh(result) && keepsMem("string") && fresh(memberIDs)
 //@   loop 2 invariant forall m string :: has(result, m) ==> mapval(result, m) != nil && has(state.members, m)
